@@ -291,6 +291,45 @@ def _obj_sig(e):
     return None
 
 
+def _switch_leaves(E, sw, depth=0):
+    """the non-constant bool expressions a switch's condition is built from (through `!`, copies and the merge locals of
+    `&&` / `||`): list of expression trees, or None if the shape is not understood"""
+    t = E.term(sw)
+    if t["k"] != "switch" or t["discr_ty"] != "bool":
+        return None
+    l = op_local(t["discr"])
+    if l is None:
+        return None
+    return _bool_leaves(E, l, depth)
+
+
+def _bool_leaves(E, l, depth=0):
+    if depth > 6:
+        return None
+    ds = [d for d in E.defs().get(l, []) if d[0] in ("stmt", "call") and (d[0] == "call" or len(d[3]) == 1)]
+    if not ds:
+        return None
+    out = []
+    for d in ds:
+        if d[0] == "call":
+            t = d[2]
+            out.append(("call", callee(t) if "callee" in t else "?", [flow.expr_of(E, a) for a in t["args"]], d[1]))
+            continue
+        rv = d[4]
+        if rv[0] == "use" and rv[1][0] == "k" and isinstance(rv[1][1].get("v"), bool):
+            continue
+        if rv[0] == "use" and op_place(rv[1]) is not None and len(op_place(rv[1])) == 1 and E.locals[op_place(rv[1])[0]] == "bool":
+            sub = _bool_leaves(E, op_place(rv[1])[0], depth + 1)
+        elif rv[0] == "un" and rv[1] == "Not" and op_local(rv[2]) is not None:
+            sub = _bool_leaves(E, op_local(rv[2]), depth + 1)
+        else:
+            return None
+        if sub is None:
+            return None
+        out.extend(sub)
+    return out
+
+
 def _empty_skip_edges(A):
     def f(E, a_sites):
         """edges that skip an A-site because its own argument would be empty: switches on `is_empty()` of a field of
@@ -300,15 +339,20 @@ def _empty_skip_edges(A):
             t = E.term(a)
             objs = [_obj_sig(flow.expr_of(E, ar)) for ar in t["args"]]
             objs = [o for o in objs if o]
+            def on_obj(e):
+                if e[0] == "call" and e[1].endswith("::is_empty") and e[2]:
+                    x = _obj_sig(e[2][0])
+                    return bool(x) and any(x[0] == o[0] and x[1][:len(o[1])] == o[1] for o in objs)
+                return False
             for (sw, succ) in C.transitive_control_deps(E, a):
                 e = flow.expr_of(E, E.term(sw)["discr"])
                 while e[0] == "un":
                     e = e[2]
-                if e[0] == "call" and e[1].endswith("::is_empty") and e[2]:
-                    x = _obj_sig(e[2][0])
-                    if x and any(x[0] == o[0] and x[1][:len(o[1])] == o[1] for o in objs):
-                        for s_ in E.succ(sw):
-                            out.append((sw, s_))
+                leaves = [e] if on_obj(e) else _switch_leaves(E, sw)
+                # the switch tests nothing but the emptiness of (parts of) the object handed to A
+                if leaves and all(on_obj(x) for x in leaves):
+                    for s_ in E.succ(sw):
+                        out.append((sw, s_))
         res = []
         sws = {sw for (sw, _) in out}
         for (sw, s_) in set(out):
